@@ -2281,23 +2281,62 @@ def run(tier):
 
 
 def replay(path):
-    from graphql import build_schema
+    from graphql import build_schema, extend_schema, parse
+    from graphql.type import GraphQLDirective, GraphQLSchema, validate_schema
+    from graphql.utilities import lexicographic_sort_schema
     d = json.loads(open(path).read())
-    if d.get("sdl") is not None and d.get("origin") != "programmatic":
+    via = d.get("via")
+    if via == "extend_schema":
+        print("base SDL (validated first):\n" + d["sdl"] + "\nextension: " + d["extension"])
+        base = build_schema(d["sdl"])
+        print("base errors:", validate_schema(base))
+        sch = extend_schema(base, parse(d["extension"]), assume_valid_sdl=bool(d.get("assume_valid_sdl")))
+    elif via in ("to_kwargs", "to_kwargs-edit"):
+        base = build_prog(d["base_abstract"])
+        print("base errors (validated first):", validate_schema(base))
+        kw = dict(base.to_kwargs())
+        if via == "to_kwargs":
+            print("mutant:", json.dumps(d["abstract"])[:2000])
+            m = build_prog(d["abstract"], force_mode=d.get("force_mode"))
+            kw.update(query=m.query_type, mutation=m.mutation_type, subscription=m.subscription_type,
+                      types=tuple(m.type_map.values()), directives=m.directives)
+        else:
+            lab = d.get("edit", "")
+            print("edit of the base's to_kwargs():", lab)
+            if lab == "no-query":
+                kw["query"] = None
+            elif lab == "dup-root":
+                kw["mutation"] = base.query_type
+            elif lab == "dir-no-locations":
+                kw["directives"] = tuple(base.directives) + (GraphQLDirective("zd", []),)
+            elif lab.startswith("root-"):
+                dump = d["dump"]
+                for op in ("query", "mutation", "subscription"):
+                    kw[op] = base.type_map.get(dump.get(op)) if dump.get(op) else None
+        sch = GraphQLSchema(**kw)
+    elif d.get("sdl") is not None and d.get("origin") != "programmatic":
         print("SDL:\n" + d["sdl"])
         sch = build_schema(d["sdl"], assume_valid_sdl=bool(d.get("assume_valid_sdl")))
     elif d.get("abstract") is not None:
         print("abstract schema:", json.dumps(d["abstract"])[:2000])
         sch = build_prog(d["abstract"], force_mode=d.get("force_mode"))
+        if via == "sort":
+            validate_schema(sch)
+            sch = lexicographic_sort_schema(sch)
     else:
         print(d)
         return 0
     ob = impl_observe(sch)
     print("implementation:", json.dumps(ob, indent=1))
     br = common.build("C20", models=("schemaval",))
+    bad = ob["raised"] is not None or ob["sync"] != "ok"
     if br.ok:
         out = Model("schemaval").run_batch([[1] + wire(dump_schema(sch))])[0]
-        print("rules (model):", sorted(KIND_NAMES.get(k, PSEUDO.get(k, str(k))) for k in set(out[1:])))
-    bad = ob["raised"] is not None or ob["sync"] != "ok"
-    print("property violated on this input" if bad else "no raise on this input")
+        mk = set(out[1:]) - {92}
+        print("rules (model):", sorted(KIND_NAMES.get(k, PSEUDO.get(k, str(k))) for k in mk))
+        if ob["messages"] is not None:
+            ik = {classify(m) for m in ob["messages"]}
+            if bool(ik) != bool(mk) or (None not in ik and 92 not in out and ik != mk):
+                bad = True
+    print("property violated on this input" if bad else "implementation and rules agree on this input")
     return 1 if bad else 0
